@@ -32,7 +32,8 @@ RULE = ("seeded class-based zoo over 34 classes (7 core labelled-matrix base cla
         "separators, sorted / unsorted label order, NaN data, standardised / arbitrary location-scale; group paths None / "
         "nested / trailing slash / non-ASCII / with spaces; file given as str / Path / open h5py.File; write histories of "
         "2-4 objects on one location (richer->poorer, poorer->richer, same, cross-class); harness-written VCF text (1-4 "
-        "contigs, shuffled records, missing IDs, multi-allelic calls, extra FORMAT keys, non-ASCII sample names).  A case is "
+        "contigs, shuffled records, missing IDs, multi-allelic calls, extra FORMAT keys, non-ASCII sample names; plus a "
+        "'many variants, few samples' class of 1025/1500/2600/4100 variants x 1-4 samples, about 6 files per quick run).  A case is "
         "non-trivial when the object has more than one entry on some labelled axis; distinct = digest of the object's "
         "observation plus the route/options.")
 ASSUME = [
@@ -979,8 +980,14 @@ def _present(v):
 
 
 # --------------------------------------------------------------- VCF
-def make_vcf(g, lcls):
+BIG_VCF_SIZES = (1025, 1500, 2600, 4100)   # variants: just past / well past importer buffer sizes such as 1024, 2048, 4096
+
+
+def make_vcf(g, lcls, big=0):
+    """``big`` = number of variants of the 'many variants, few samples' class (0: small hostile files)."""
     n = int(g.integers(1, 7)); nchr = int(g.integers(1, 5)); m = int(g.integers(1, 15))
+    if big:
+        n = int(g.integers(1, 5)); m = int(big)
     if lcls == "non-ASCII labels":
         samples = ["Sé%d" % i if i % 2 else "样本%d" % i for i in range(n)]
     elif lcls == "labels with separators":
@@ -992,7 +999,15 @@ def make_vcf(g, lcls):
     used = set()
     multi = bool(g.random() < 0.3)
     extra_fmt = bool(g.random() < 0.3)
-    for i in range(m):
+    if big:     # vectorised draws: generation cost stays negligible next to the import itself
+        chs = g.choice(numpy.array(contigs), m); poss = g.choice(2000000, m, replace=False) + 1
+        nalts = g.integers(1, 4, m) if multi else numpy.ones(m, dtype=int)
+        allc = (g.random((m, n, 2)) * (nalts + 1)[:, None, None]).astype(int)
+        miss = g.random(m) < 0.1
+        for i in range(m):
+            recs.append(dict(chrom=int(chs[i]), pos=int(poss[i]), id=None if miss[i] else "rs%d_%d" % (chs[i], poss[i]), ref="A",
+                             alt=",".join(["C", "G", "T"][:int(nalts[i])]), calls=allc[i]))
+    for i in range(0 if big else m):
         ch = int(pick(g, contigs))
         pos = int(g.integers(1, 100000))
         while (ch, pos) in used:
@@ -1032,10 +1047,12 @@ def case_vcf(ctx, c):
     g = ctx.rng("vcf", c)
     coords = [c, "vcf"]
     lcls = pick(g, LABEL_CLASSES)
-    text, samples, recs, vcls = make_vcf(g, lcls)
+    big = BIG_VCF_SIZES[(c // 167) % len(BIG_VCF_SIZES)] if c % 167 == 3 else 0     # about 6 such files per quick run
+    text, samples, recs, vcls = make_vcf(g, lcls, big)
     auto = bool(g.random() < 0.5)
-    ctx.case("vcf/" + vcls.split("/")[0] + "/" + lcls, text, auto, trivial=len(recs) < 2 and len(samples) < 2)
-    if c % 97 == 0:
+    BIGCLS = "many variants (more than 1024), few samples"
+    ctx.case("vcf/" + (BIGCLS if big else vcls.split("/")[0]) + "/" + lcls, text, auto, trivial=len(recs) < 2 and len(samples) < 2)
+    if c % 97 == 0 and not big:
         ctx.sample({"case": c, "route": "vcf", "auto_group_vrnt": auto, "text": text})
     d = scratch_dir()
     try:
@@ -1045,11 +1062,14 @@ def case_vcf(ctx, c):
         for phased, cls, clause in ((True, DensePhasedGenotypeMatrix, "C16.vcf.phased"), (False, DenseGenotypeMatrix, "C16.vcf.unphased")):
             site = defsite(cls, "from_vcf")
             try:
-                gm = guarded(ctx, site, "vcf", coords, lambda: cls.from_vcf(path, auto_group_vrnt=auto), {"vcf": text})
+                gm = guarded(ctx, site, "vcf", coords, lambda: cls.from_vcf(path, auto_group_vrnt=auto), {"vcf": text[:4000]})
             except Raised:
                 continue
-            wit = {"vcf": text, "auto_group_vrnt": auto, "taxa": gm.taxa, "vrnt_chrgrp": gm.vrnt_chrgrp, "vrnt_phypos": gm.vrnt_phypos,
-                   "vrnt_name": gm.vrnt_name, "mat": gm.mat}
+            if big:     # keep replay files small: the case is regenerated from its coordinates
+                wit = {"vcf (head)": "\n".join(text.split("\n")[:12]), "variants": len(recs), "samples": samples, "auto_group_vrnt": auto}
+            else:
+                wit = {"vcf": text, "auto_group_vrnt": auto, "taxa": gm.taxa, "vrnt_chrgrp": gm.vrnt_chrgrp, "vrnt_phypos": gm.vrnt_phypos,
+                       "vrnt_name": gm.vrnt_name, "mat": gm.mat}
             ok_t = (isinstance(gm.taxa, numpy.ndarray) and gm.taxa.dtype == object and gm.taxa.tolist() == samples)
             ctx.check(clause, ok_t, site, "sample names reproduced in order", lcls, witness=wit, coords=coords)
             m, n = len(recs), len(samples)
@@ -1086,11 +1106,18 @@ def case_vcf(ctx, c):
             )
             failed = False
             for rel, proj, pic in parts:
-                ok = (not failed) and norm([proj(k) for k in got]) == norm([proj(k) for k in exp])
                 if failed:
                     ctx.ok(clause)      # implied by the failure already reported for this import
                     continue
-                ctx.check(clause, ok, site, rel, pic, witness=dict(wit, expected=exp, got=got), coords=coords)
+                ge, ee = norm([proj(k) for k in got]), norm([proj(k) for k in exp])
+                ok = ge == ee
+                w = None
+                if not ok:
+                    bad = [i for i in range(len(ee)) if ge[i] != ee[i]]
+                    w = dict(wit, expected=exp, got=got) if not big else dict(
+                        wit, **{"records differing": len(bad), "first differing (index, expected, got)": [(i, ee[i], ge[i]) for i in bad[:5]],
+                                "last differing index": bad[-1]})
+                ctx.check(clause, ok, site, rel, BIGCLS if big else pic, witness=w, coords=coords)
                 failed = not ok
             if not phased:
                 ctx.check(clause, gm.ploidy == 2, site, "ploidy of a diploid VCF is 2", "any", witness=wit, coords=coords)
